@@ -224,6 +224,90 @@ theorem msgs_le_frames {max buf : Nat} {s : Session} (h : InScope max buf s) : s
   rw [List.length_append, List.length_flatMap]
   omega
 
+/-! ## Frame API and message API tell the same story -/
+
+theorem assemble_cons (f : InFrame) (r : List InFrame) (cur : Option (Nat × Bytes)) :
+    assemble (f :: r) cur =
+      if Sonic.Spec.WsStream.controlOp f.op then assemble r cur
+      else if f.fin then
+        ((match cur with | some c => c.1 | none => f.op), (match cur with | some c => c.2 | none => []) ++ f.payload) :: assemble r none
+      else assemble r (some ((match cur with | some c => c.1 | none => f.op), (match cur with | some c => c.2 | none => []) ++ f.payload)) := rfl
+
+theorem assemble_ctls (max : Nat) : ∀ (cs : List Ctl) (rest : List InFrame) (cur : Option (Nat × Bytes)),
+    (∀ c ∈ cs, CtlOk max c) → assemble ((cs.map ctlFrame).map inFrameOf ++ rest) cur = assemble rest cur := by
+  intro cs
+  induction cs with
+  | nil => intro rest cur _; rfl
+  | cons c cs ih =>
+    intro rest cur h
+    have hc := h c (List.mem_cons_self ..)
+    have hop : Sonic.Spec.WsStream.controlOp (inFrameOf (ctlFrame c)).op = true := by
+      show Sonic.Spec.WsStream.controlOp c.op = true
+      rcases hc.1 with h | h <;> rw [h] <;> rfl
+    simp only [List.map_cons, List.cons_append, assemble, hop, if_true]
+    exact ih rest cur (fun x hx => h x (List.mem_cons_of_mem _ hx))
+
+theorem assemble_parts (max ty : Nat) (hty : ty = 1 ∨ ty = 2) : ∀ (parts : List (List Ctl × Bytes)) (first : Bool)
+    (acc : Bytes) (rest : List InFrame), parts ≠ [] → (∀ p ∈ parts, ∀ c ∈ p.1, CtlOk max c) →
+    assemble ((partFrames ty first parts).map inFrameOf ++ rest) (if first then none else some (ty, acc)) =
+      (ty, (if first then [] else acc) ++ partsPayload parts) :: assemble rest none := by
+  intro parts
+  induction parts with
+  | nil => intro _ _ _ h; exact absurd rfl h
+  | cons p q ih =>
+    intro first acc rest _ hctl
+    obtain ⟨cs, b⟩ := p
+    have hpay : partsPayload ((cs, b) :: q) = b ++ partsPayload q := by simp [partsPayload]
+    have hnc : Sonic.Spec.WsStream.controlOp (if first then ty else 0) = false := by
+      cases first
+      · rfl
+      · rcases hty with h | h <;> rw [h] <;> rfl
+    simp only [partFrames, List.map_append, List.map_cons, List.append_assoc, List.cons_append]
+    rw [assemble_ctls max cs _ _ (fun c hc => hctl (cs, b) (List.mem_cons_self ..) c hc)]
+    have hop : (inFrameOf (dataFrame (if first then ty else 0) q.isEmpty b)).op = (if first then ty else 0) := rfl
+    have hfin : (inFrameOf (dataFrame (if first then ty else 0) q.isEmpty b)).fin = q.isEmpty := rfl
+    have hpl : (inFrameOf (dataFrame (if first then ty else 0) q.isEmpty b)).payload = b := rfl
+    rw [assemble_cons]
+    simp only [hop, hfin, hpl, hnc, Bool.false_eq_true, if_false]
+    cases q with
+    | nil =>
+      simp only [List.isEmpty_nil, if_true, partFrames, List.map_nil, List.nil_append, hpay, partsPayload, List.flatMap_nil,
+        List.append_nil]
+      cases first <;> simp
+    | cons r q' =>
+      simp only [List.isEmpty_cons, Bool.false_eq_true, if_false]
+      have := ih false ((if first then [] else acc) ++ b) rest (by simp) (fun x hx c hc => hctl x (List.mem_cons_of_mem _ hx) c hc)
+      simp only [Bool.false_eq_true, if_false] at this
+      cases first
+      · simp only [Bool.false_eq_true, if_false] at this ⊢
+        rw [this, hpay, List.append_assoc]
+      · simp only [if_true, List.nil_append] at this ⊢
+        rw [this, hpay]
+
+/-- Reassembling what the frame API delivers (RFC 6455 5.4) gives what the message API delivers: the same messages,
+same types, same payloads, in the same order. -/
+theorem assemble_session {max buf : Nat} : ∀ (msgs : List Sent) (tail : List Ctl), InScope max buf { msgs := msgs, tail := tail } →
+    assemble (({ msgs := msgs, tail := tail } : Session).frames.map inFrameOf) none = msgs.map fun m => (m.ty, m.payload) := by
+  intro msgs
+  induction msgs with
+  | nil =>
+    intro tail h
+    have := assemble_ctls max tail [] none h.2
+    simpa [Session.frames, assemble] using this
+  | cons m ms ih =>
+    intro tail h
+    obtain ⟨hty, hne, _, _, hctl⟩ := h.1 m (List.mem_cons_self ..)
+    have hrest := ih tail ⟨fun x hx => h.1 x (List.mem_cons_of_mem _ hx), h.2⟩
+    have := assemble_parts max m.ty hty m.parts true [] ((({ msgs := ms, tail := tail } : Session).frames).map inFrameOf) hne
+      (fun p hp c hc => hctl c (by unfold Sent.ctls; exact List.mem_flatMap.mpr ⟨p, hp, hc⟩))
+    simp only [if_true, List.nil_append] at this
+    have hfr : ({ msgs := m :: ms, tail := tail } : Session).frames = m.frames ++ ({ msgs := ms, tail := tail } : Session).frames := by
+      simp [Session.frames]
+    rw [hfr, List.map_append]
+    unfold Sent.frames
+    rw [this, hrest]
+    simp [Sent.payload, partsPayload]
+
 /-! ## A fresh stream -/
 
 theorem init_inv (max : Nat) (cap : Int) (chunks : List (List UInt8)) (rooms : List Int)
